@@ -234,6 +234,33 @@ pub fn cmd_run(args: &[String]) {
                     if let Some(toks) = tokens_of(lit) { for e in &edits { if let Some(t) = apply_edit(&toks, e) { emit(&mut w, &json!({"kind":"lit","text":t,"prog":lit,"edit":e})); } } }
                 }
             }
+            "values" => {
+                // substitutions of operands (names, numbers, true / false) of generated programs by values of other types
+                let edits: Vec<Value> = read_lines(&args[1]).map(|l| serde_json::from_str(&l).unwrap()).collect();
+                let nprog: usize = args[6].parse().unwrap();
+                let max_tok = edits.iter().map(|e| e["pos"].as_u64().unwrap() as usize).max().unwrap_or(0);
+                const KEYWORDS: [&str; 22] = ["const", "struct", "enum", "fn", "let", "if", "else", "match", "mut", "as", "pub", "for", "in", "u8", "u16", "u32", "u64", "usize", "i8", "i16", "i32", "bool"];
+                let mut made = 0;
+                let mut k = 0u64;
+                while made < nprog && k < 40 * nprog as u64 {
+                    k += 1;
+                    let mut rng = Rng::new(seed_from_env().wrapping_mul(131).wrapping_add(k + 5000));
+                    let profile = if k % 2 == 0 { crate::pgen::Profile::Mutation } else { crate::pgen::Profile::Default };
+                    let src = { let mut g = crate::pgen::Gen::new(&mut rng, profile); g.program() };
+                    let Some(toks) = tokens_of(&src) else { continue };
+                    if toks.len() > max_tok + 1 || toks.len() < 30 { continue; }
+                    made += 1;
+                    for e in &edits {
+                        let pos = e["pos"].as_u64().unwrap() as usize;
+                        if pos == 0 || pos > toks.len() { continue; }
+                        let t = &toks[pos - 1].1;
+                        let c = t.chars().next().unwrap_or(' ');
+                        let operand = (c.is_ascii_alphabetic() || c == '_' || c.is_ascii_digit()) && !KEYWORDS.contains(&t.as_str()) && !t.starts_with("i64");
+                        if !operand { continue; }
+                        if let Some(t) = apply_edit(&toks, e) { emit(&mut w, &json!({"kind":"text","text":t,"prog":format!("gen-values-{k}"),"edit":e})); }
+                    }
+                }
+            }
             "cuts" => {
                 // every prefix of the construct-covering programs followed by every TLC-enumerated short token string
                 let strings: Vec<Vec<usize>> = read_lines(&args[1]).map(|l| { let c: Value = serde_json::from_str(&l).unwrap(); c["s"].as_array().unwrap().iter().map(|x| x.as_u64().unwrap() as usize).collect() }).collect();
